@@ -72,12 +72,12 @@ func (a *app) AllowWaitingForTrust(ski string) bool                             
 // ---- certificates ----
 
 type certVariant struct {
-	name    string
-	cert    *tls.Certificate
-	leaf    *x509.Certificate
-	okSKI   bool // 20 bytes and SHA-1 of the certificate's own public key
-	skiHex  string
-	keySKI  string // hex SHA-1 of the subject public key
+	name   string
+	cert   *tls.Certificate
+	leaf   *x509.Certificate
+	okSKI  bool // 20 bytes and SHA-1 of the certificate's own public key
+	skiHex string
+	keySKI string // hex SHA-1 of the subject public key
 }
 
 func spkiHash(c *x509.Certificate) []byte {
@@ -273,11 +273,17 @@ type peerServer struct {
 	srv    *http.Server
 }
 
-func startPeer(v certVariant, offerShip bool) *peerServer {
+// rootOnly: the peer answers 404 on the announced path, so that the hub's second dial (without the path) is the
+// one that succeeds
+func startPeer(v certVariant, offerShip bool, rootOnly bool) *peerServer {
 	p := &peerServer{port: freePort(), frames: make(chan []byte, 16), closed: make(chan struct{}, 16)}
 	up := websocket.Upgrader{CheckOrigin: func(*http.Request) bool { return true }, Subprotocols: []string{"ship"}}
 	p.srv = &http.Server{Addr: fmt.Sprintf("127.0.0.1:%d", p.port), TLSConfig: &tls.Config{Certificates: []tls.Certificate{*v.cert}, ClientAuth: tls.RequestClientCert},
 		Handler: http.HandlerFunc(func(w http.ResponseWriter, r *http.Request) {
+			if rootOnly && r.URL.Path != "/" && r.URL.Path != "" {
+				http.NotFound(w, r)
+				return
+			}
 			c, err := up.Upgrade(w, r, nil)
 			if err != nil {
 				return
@@ -311,61 +317,67 @@ func spellings(ski string) map[string]string {
 
 func outbound(vs []certVariant, h *hub.Hub, a *app, otherSKI string) []result {
 	var out []result
-	for _, v := range vs {
-		if v.cert == nil {
-			continue
+	for _, vv := range vs {
+		for _, rootOnly := range []bool{false, true} {
+			v := vv
+			if v.cert == nil {
+				continue
+			}
+			p := startPeer(v, true, rootOnly)
+			if rootOnly {
+				v.name += "(served-on-retry-path-only)"
+			}
+			dials := map[string]string{}
+			if len(v.skiHex) > 0 {
+				for n, s := range spellings(v.skiHex) {
+					dials["presented-ski/"+n] = s
+				}
+			}
+			dials["other-ski"] = otherSKI
+			dials["key-ski"] = v.keySKI
+			var names []string
+			for n := range dials {
+				names = append(names, n)
+			}
+			sort.Strings(names)
+			for _, n := range names {
+				d := dials[n]
+				name := fmt.Sprintf("outbound cert=%s dialled=%s", v.name, n)
+				norm := strings.ToLower(strings.ReplaceAll(strings.ReplaceAll(d, " ", ""), "-", ""))
+				expected := v.okSKI && norm == v.skiHex
+				for len(p.frames) > 0 {
+					<-p.frames
+				}
+				for len(p.closed) > 0 {
+					<-p.closed
+				}
+				a.take()
+				h.RegisterRemoteSKI(d)
+				entry := &api.MdnsEntry{Name: "peer", Ski: norm, Identifier: "peer", Path: "/ship/", Host: "127.0.0.1", Port: p.port, Addresses: []net.IP{net.ParseIP("127.0.0.1")}}
+				h.ReportMdnsEntries(map[string]*api.MdnsEntry{norm: entry}, true)
+				got, detail := false, ""
+				// a connection that has to come about is waited for generously (no verdict depends on the machine being
+				// fast); for one that must not, 1.5 s without a frame is the observation
+				wait := 1500 * time.Millisecond
+				if expected {
+					wait = 150 * time.Second
+				}
+				select {
+				case f := <-p.frames:
+					got = true
+					detail = fmt.Sprintf("frame %x", f[:min(len(f), 8)])
+				case <-p.closed:
+					detail = "closed without a frame"
+				case <-time.After(wait):
+					detail = "no connection / no frame"
+				}
+				h.UnregisterRemoteSKI(d)
+				h.DisconnectSKI(norm, "done")
+				time.Sleep(650 * time.Millisecond)
+				out = append(out, result{Case: name, Expected: expected, Got: got, SKIs: a.take(), Detail: detail})
+			}
+			p.srv.Close()
 		}
-		p := startPeer(v, true)
-		dials := map[string]string{}
-		if len(v.skiHex) > 0 {
-			for n, s := range spellings(v.skiHex) {
-				dials["presented-ski/"+n] = s
-			}
-		}
-		dials["other-ski"] = otherSKI
-		dials["key-ski"] = v.keySKI
-		var names []string
-		for n := range dials {
-			names = append(names, n)
-		}
-		sort.Strings(names)
-		for _, n := range names {
-			d := dials[n]
-			name := fmt.Sprintf("outbound cert=%s dialled=%s", v.name, n)
-			norm := strings.ToLower(strings.ReplaceAll(strings.ReplaceAll(d, " ", ""), "-", ""))
-			expected := v.okSKI && norm == v.skiHex
-			for len(p.frames) > 0 {
-				<-p.frames
-			}
-			for len(p.closed) > 0 {
-				<-p.closed
-			}
-			a.take()
-			h.RegisterRemoteSKI(d)
-			entry := &api.MdnsEntry{Name: "peer", Ski: norm, Identifier: "peer", Path: "/ship/", Host: "127.0.0.1", Port: p.port, Addresses: []net.IP{net.ParseIP("127.0.0.1")}}
-			h.ReportMdnsEntries(map[string]*api.MdnsEntry{norm: entry}, true)
-			got, detail := false, ""
-			// a connection that has to come about is waited for generously (no verdict depends on the machine being
-			// fast); for one that must not, 1.5 s without a frame is the observation
-			wait := 1500 * time.Millisecond
-			if expected {
-				wait = 30 * time.Second
-			}
-			select {
-			case f := <-p.frames:
-				got = true
-				detail = fmt.Sprintf("frame %x", f[:min(len(f), 8)])
-			case <-p.closed:
-				detail = "closed without a frame"
-			case <-time.After(wait):
-				detail = "no connection / no frame"
-			}
-			h.UnregisterRemoteSKI(d)
-			h.DisconnectSKI(norm, "done")
-			time.Sleep(650 * time.Millisecond)
-			out = append(out, result{Case: name, Expected: expected, Got: got, SKIs: a.take(), Detail: detail})
-		}
-		p.srv.Close()
 	}
 	return out
 }
@@ -536,7 +548,7 @@ func main() {
 	}
 	ev := map[string]any{"property_id": "C02", "tier": *tier, "seed": *seed, "level": "exploration",
 		"coverage": map[string]any{"evaluations": len(results), "distinct_nontrivial": nontriv,
-			"rule": "inbound: {no certificate, 10 certificate variants (generator output, SKI absent, length 1/19/21/40, correct, copied from another device, random 20 bytes, RSA key)} x TLS max version {1.0,1.1,1.2,1.3} x offered sub-protocols {none,[ship],[x],[x,ship]}; outbound: certificate variant x dialled SKI {presented (canonical, upper case, spaced), another device's, the hash of the key}; generator: subject strings; every case is one real TLS/websocket session against the real hub on loopback; non-trivial = cases that must be refused",
+			"rule":    "inbound: {no certificate, 10 certificate variants (generator output, SKI absent, length 1/19/21/40, correct, copied from another device, random 20 bytes, RSA key)} x TLS max version {1.0,1.1,1.2,1.3} x offered sub-protocols {none,[ship],[x],[x,ship]}; outbound: certificate variant x dialled SKI {presented (canonical, upper case, spaced), another device's, the hash of the key}; generator: subject strings; every case is one real TLS/websocket session against the real hub on loopback; non-trivial = cases that must be refused",
 			"samples": samples, "exhaustive": true, "known_findings_seen": knownSeen},
 		"assumptions": []string{"crypto/tls reports the authenticated leaf as PeerCertificates[0]", "real sockets and wall-clock time on loopback; generous watchdogs end in an engine error (exit 2), never in a verdict"},
 		"wall_s":      time.Since(start).Seconds(), "violations": newV}
